@@ -112,12 +112,17 @@ ArgEff(C, a, node) ==
       v == IF i = 0 THEN Absent ELSE LitValue(C, node.args[i].val) IN
   IF IsAbsent(v) /\ a.hasDefault THEN LitValue(C, a.default) ELSE v
 
+\* an input object value of type In whose guarded field q holds 13 (at the top level or in the nested object n)
+RECURSIVE BoomIn(_)
+BoomIn(v) == v.t = "O" /\ \E k \in 1..Len(v.v) : (v.v[k][1] = "q" /\ v.v[k][2] = Int(13)) \/ (v.v[k][1] = "n" /\ BoomIn(v.v[k][2]))
+
 CoerceArgs(C, fdef, node) ==
   LET n == Len(fdef.args)
       eff == [i \in 1..n |-> ArgEff(C, fdef.args[i], node)]
       bad == {i \in 1..n : IsNN(fdef.args[i].type) /\ (IsAbsent(eff[i]) \/ IsNull(eff[i]))}
              \* an argument-definition directive whose hook raises for the value 13 (see SExec!GdArgs): the field fails, no call
              \cup {i \in 1..n : "dirs" \in DOMAIN fdef.args[i] /\ eff[i] = Int(13)}
+             \cup {i \in 1..n : fdef.args[i].type = <<"In">> /\ ~IsAbsent(eff[i]) /\ BoomIn(eff[i])}
       keep == SelectSeq([i \in 1..n |-> i], LAMBDA i : ~IsAbsent(eff[i])) IN
   [ok |-> bad = {},
    v  |-> [j \in 1..Len(keep) |-> <<fdef.args[keep[j]].name, eff[keep[j]]>>]]
